@@ -62,7 +62,10 @@ def generate_econ_misuse(seed, S):
     ops, info = econgen.gen_program(seed, family=fam, tight=False, T=2)
     e = info['economies'][0]
     main_i = [i for i, o in enumerate(ops) if o['op'] == 'main'][0]
-    pos = S['faults'].randint([i for i, o in enumerate(ops) if o.get('id') == e['good']][0] + 1, main_i)
+    # after every object the ill-formed declarations refer to exists (a multi-output business is declared after
+    # its markets): an op on a handle that does not exist yet is a no-op and the program would be well formed
+    made = [i for i, o in enumerate(ops) if o.get('id') in (e['good'], e['hh'], e.get('bus'), e.get('gov'))]
+    pos = S['faults'].randint(max(made) + 1, main_i)
     extra = []
     if kind == 'dup_country':
         extra = [{'op': 'Country', 'id': 'cdup', 'model': info['model'], 'code': e['names']['code'], 'currency': None}]
